@@ -493,6 +493,7 @@ fn c18_judge(c: &C18Case, obs: &mut Obs) -> Result<(), String> {
         None => TlInForce::new(&c.tl, None),
     };
     let mut animator = match (c.with_timeline, &c.extra) {
+        (false, _) if c.bystanders % 2 == 0 => Animator::default(),
         (false, _) => Animator::new(),
         (true, None) => Animator::with_timeline(build_a(&c.tl)),
         (true, Some(x)) => Animator::with_timeline(MergedTimeline::of([build_a(&c.tl), build_a(x)])),
@@ -792,6 +793,8 @@ fn c19_judge(c: &C19Case, obs: &mut Obs) -> Result<(), String> {
     };
     let governed = match c.ctor_timeline {
         Some(i) => Animator::<A>::with_timeline(build_a(&c.tls[i as usize % c.tls.len().max(1)])),
+        // `Animator::default()` is the same thing as `Animator::new()`
+        None if c.initial_key % 2 == 0 => Animator::<A>::default(),
         None => Animator::<A>::new(),
     };
     obs.label_if(13, c.ctor_timeline.is_some());
